@@ -3,6 +3,9 @@
 package http
 
 import (
+	"context"
+	"net/http"
+
 	"github.com/jech/storrent/path"
 	"github.com/jech/storrent/tor"
 )
@@ -59,4 +62,19 @@ func H_C20_fileParms() {
 		vReach("miss")
 		vAssert(err != nil, "absent, partial or longer paths resolve to nothing")
 	}
+}
+
+var vCraftedNames = []string{"a", "a/b", "/", "//", "a/", "/a"}
+
+// H_C20_single_listing: the HTML entry and the playlist of a SINGLE-FILE torrent whose name is
+// crafted (parameter name: plain, nested, only slashes, trailing / leading slash): listing it
+// fails cleanly or succeeds - it never crashes.
+func H_C20_single_listing() {
+	name := vCraftedNames[vParam("name")]
+	t := tor.VRegister(make([]byte, 20), name, nil, 100)
+	vDead = false
+	w := &vRW{}
+	torrentEntry(context.Background(), w, t, nil) // a panic is the violation
+	playlist(w, &http.Request{Method: "GET", Host: "localhost:8088"}, t, nil)
+	vReach("listed")
 }
